@@ -85,6 +85,10 @@ FEATURES = [
     ("new_variable", "class NV{S} { public $v; function __construct($v = 0) { $this->v = $v; } } $cn{S} = 'NV{S}'; $nv{S} = new $cn{S}(3); echo $nv{S}->v, \"\\n\";"),
     ("new_self_static_args", "class NS2{S} { public $v; function __construct($v = 0) { $this->v = $v; } static function a() { return new self(4); } static function b() { return new static(5); } } echo NS2{S}::a()->v, NS2{S}::b()->v, \"\\n\";"),
     ("array_int_keys", "$ik{S} = [1 => 'a', 5 => 'b', 'k' => 'c']; $ik{S}[] = 'd'; echo json_encode($ik{S}), \"\\n\";"),
+    ("multi_namespace", "namespace NsA{S};\nconst LIM = 3;\nfunction late($x) { return 'A-late:' . $x . ':' . fmt($x) . later2(); }\nfunction fmt($x) { return 'A:' . $x; }\nclass Box { const K = 'ka'; function show() { return fmt(self::K) . later2(); } }\nfunction later2() { return '/A2'; }\necho late(1), fmt(1), (new Box())->show(), LIM, \"\\n\";\nnamespace NsB{S};\nconst LIM = 4;\nfunction late($x) { return 'B-late:' . $x . ':' . fmt($x) . later2(); }\nfunction fmt($x) { return 'B:' . $x; }\nclass Box { const K = 'kb'; function show() { return fmt(self::K) . later2(); } }\nfunction later2() { return '/B2'; }\necho late(2), fmt(2), (new Box())->show(), LIM, \\NsA{S}\\fmt(3), (new \\NsA{S}\\Box())->show(), \"\\n\";"),
+    ("user_attribute", "class Tag{S} { public $v; function __construct($v = 'd') { $this->v = $v; } }\n#[Tag{S}('on-class')]\nclass Tagged{S} { #[Tag{S}('on-method')] function m() { return 1; } public $p = 1; const C = 2; }\n$rc{S} = new \\ReflectionClass('Tagged{S}');\necho count($rc{S}->getAttributes()), ':';\nforeach ($rc{S}->getAttributes() as $at{S}) { echo $at{S}->getName(), '=', $at{S}->newInstance()->v, ';'; }\necho \"\\n\";"),
+    ("reflection_members", "class RM{S} { const A = 1; const B = 'b'; public $p = 1; protected $q = 2; private $r = 3; public static $s = 4; function m1() {} protected function m2() {} static function m3() {} }\n$rr{S} = new \\ReflectionClass('RM{S}');\necho json_encode($rr{S}->getMethods()), json_encode($rr{S}->getProperties()), $rr{S}->hasMethod('m2') ? 'y' : 'n', $rr{S}->getName(), count($rr{S}->getAttributes()), \"\\n\";"),
+    ("datetime_fixed", "$dt{S} = new \\DateTime('2001-02-03 04:05:06'); echo $dt{S}->format('Y-m-d H:i:s'), ' '; $dt{S}->setDate(2010, 11, 12); $dt{S}->setTime(13, 14, 15); echo $dt{S}->format('Y-m-d H:i:s'), ' ', $dt{S}->format('D, d M Y'), ' ', $dt{S}->getTimestamp(), \"\\n\";"),
     ("list_assign", "[$la{S}, $lb{S}] = [1, 2]; echo $la{S}, $lb{S}, \"\\n\";"),
     ("incr_ops", "$u{S} = 1; $u{S}++; ++$u{S}; $u{S} += 3; $u{S} -= 1; $u{S} *= 2; $w{S} = 'a'; $w{S} .= 'b'; echo $u{S}, $w{S}, \"\\n\";"),
     ("uncaught_throw", "echo \"before\\n\"; throw new Exception('uncaught{S}'); echo 'after';"),
@@ -361,6 +365,24 @@ PSEUDO_TYPES = [
 ]
 
 
+def align_calls(a, b):
+    """the one place where the late-bound namespace of a call is NOT compared: the parsed side is a plain
+    CallExpression (late-namespace = null: callee resolved while parsing), the built side is the NewCallTodo
+    the generator always emits; there the full name is found before the namespace is consulted.
+    Everywhere else (both sides late-bound) the namespace is part of the tree."""
+    if isinstance(a, dict) and isinstance(b, dict):
+        if a.get("n") == "node.CallExpression" and b.get("n") == "node.CallExpression":
+            fa, fb = a.get("f") or [], b.get("f") or []
+            if fa and fb and fa[-1][0] == "late-namespace" and fb[-1][0] == "late-namespace" and fa[-1][1] is None:
+                fb[-1][1] = None
+        for k in a:
+            if k in b:
+                align_calls(a[k], b[k])
+    elif isinstance(a, list) and isinstance(b, list):
+        for x, y in zip(a, b):
+            align_calls(x, y)
+
+
 def coq_table(tb):
     ents = []
     for t in tb:
@@ -588,7 +610,7 @@ def main(ck):
             p = os.path.join(gen_dir, "x_%s.php" % name)
             write_src(p, src)
             progs[p] = {"kind": "feature", "features": [name], "src": src}
-        combinable = [f for f in FEATURES if f[0] not in ("uncaught_throw", "undefined_function", "exit_code", "namespace_fn", "shutdown_function")
+        combinable = [f for f in FEATURES if f[0] not in ("uncaught_throw", "undefined_function", "exit_code", "namespace_fn", "shutdown_function", "multi_namespace", "user_attribute", "datetime_fixed")
                       and not any(k.startswith("e2e:feature=%s" % f[0]) or k.startswith("reject:feature=%s" % f[0]) or k.startswith("struct:") and f[0] in k for k in ck.known)]
         for c in range(8 if quick else 60):
             chosen = rng.sample(combinable, min(len(combinable), rng.randint(3, 6)))
@@ -696,7 +718,7 @@ def main(ck):
         stress = [("replay", bytes.fromhex(replay["hex"]))]
     elif replay is None and not quick:
         stress = stress_strings(rng, 3000)
-    reqs = [{"mode": "table"}, {"mode": "emit_zero"}, {"mode": "strlit", "hex": [b.hex() for _, b in stress]},
+    reqs = [{"mode": "table"}, {"mode": "emit_zero"}, {"mode": "strlit", "hex": [b.hex() for _, b in stress]}, {"mode": "loaders"},
             {"mode": "struct", "files": gen_files}]
     for d in sorted(by_dir):
         reqs.append({"mode": "struct", "files": sorted(by_dir[d])})
@@ -706,10 +728,29 @@ def main(ck):
         ck.broken.append("harness-run")
         ck.finish(evaluations=0, distinct_nontrivial=0, rule="engine crashed")
     table = outs[0]["table"] + PSEUDO_TYPES
+    for t in table:
+        if t["name"] == "node.CallExpression":
+            # pseudo-field added by the dumper: the namespace of the late-bound form (CallLater.namespace)
+            t["fields"] = (t.get("fields") or []) + [{"name": "late-namespace", "exported": True, "pp": False, "node": False, "kind": "string"}]
     tmap = {t["name"]: t for t in table}
     emit_zero = outs[1]["emit_zero"]
     strlit = outs[2].get("strlit") or []
-    structs = [s for o in outs[3:] for s in o["struct"]]
+    loaders = outs[3].get("loaders") or {}
+    structs = [s for o in outs[4:] for s in o["struct"]]
+    # ---- the generated main.go loads the standard library like the interpreter does (seeded C16-6): VM.AddClass /
+    # AddFunc keep the first registration of a name, so for names registered by two loaders the ORDER decides
+    def load_order(text):
+        return [m for m in re.findall(r"\b(\w+)\.Load\(vm\)", text)]
+    alias = {"netannotation": "annotation"}
+    tmpl_order = [alias.get(x, x) for x in load_order(open(os.path.join(repo, "cmd", "compile", "template.go"), encoding="utf-8").read().split("defaultMainTmpl", 1)[-1])]
+    zy_order = [alias.get(x, x) for x in load_order(open(os.path.join(repo, "zy.go"), encoding="utf-8").read())]
+    dups = sorted(list((loaders.get("classes") or {}).keys()) + list((loaders.get("funcs") or {}).keys()))
+    ck.cov["stdlib_loader_order"] = {"generated_main_template": tmpl_order, "interpreter_zy_go": zy_order}
+    ck.cov["names_registered_by_two_loaders_with_different_go_types"] = {k: ["%s:%s" % (r["Loader"], r["Type"]) for r in v]
+                                                                       for k, v in list((loaders.get("classes") or {}).items()) + list((loaders.get("funcs") or {}).items())}
+    if tmpl_order != zy_order:
+        ck.violation("template:loader-order", {"case": {"kind": "loader-order"}, "impl_out": {"template": tmpl_order, "zy.go": zy_order, "first-registration-wins names": dups},
+                                               "clause": "the generated main.go must load the standard library in the interpreter's order: %s are registered by two loaders with different implementations and the first registration wins" % (", ".join(dups) or "no name today")})
     tbl_term = coq_table(table)
     table_def = "Definition tbl : table := %s.\n" % tbl_term
     obl = os.path.join(ck.bdir, "Obligations.v")
@@ -819,6 +860,7 @@ def main(ck):
             ck.violation("struct:error", {"case": {"kind": "struct", "file": s["file"], "src": (meta or {}).get("src")}, "impl_out": s.get("err"),
                                           "clause": "the parsed tree and the constructor-built tree could not be obtained"})
             continue
+        align_calls(s["parsed"], s["built"])
         pterms.append("(%s, %s)" % (coq_val(s["parsed"]), coq_val(s["built"])))
         pidx.append(s)
         for sub in (s.get("subs") or []):
@@ -965,7 +1007,7 @@ def main(ck):
 
     # ---- real single-program projects from the unmodified generated register.go / main.go / go.mod
     real = [f for f in gen_files if progs[f]["kind"] == "feature"]
-    real = [f for f in real if progs[f]["features"][0] in ("class_const", "try_catch", "uncaught_throw", "exit_code", "namespace_fn", "closure_value", "shutdown_function")]
+    real = [f for f in real if progs[f]["features"][0] in ("class_const", "try_catch", "uncaught_throw", "exit_code", "namespace_fn", "closure_value", "shutdown_function", "datetime_fixed", "multi_namespace")]
     if not quick:
         # one real project per feature block + a seeded dozen of the generated families (a project costs ~4 s)
         real = [f for f in gen_files if os.path.basename(f).startswith("f")]
